@@ -50,6 +50,10 @@
 //     order and with which arguments" is part of the translated meaning; calls
 //     listed under "pure" are opaque values that are not traced; a call to a
 //     translated function that itself has opaque parameters is opaque too;
+//   - a local variable of abstract type (`var subnet netip.Prefix`,
+//     `raddr := rw.RemoteAddr()`, `next := mh.next`) carries no value: its
+//     declaration and assignments to it are dropped, except that an opaque call
+//     on the right-hand side is still recorded in the trace;
 //   - calls listed under "ignore" (mutex operations, logging, metrics) are
 //     dropped; methods listed under "identity" return their receiver;
 //   - "recv_nonnil" models a pointer receiver as the struct itself (the
@@ -1185,6 +1189,9 @@ func (c *fctx) stmts(list []ast.Stmt) string {
 				fail("var with values %s", c.show(x))
 			}
 			for _, n := range vs.Names {
+				if c.t.leanType(c.p.info.Defs[n].Type()) == "" {
+					continue // abstract local, see abstractAssign
+				}
 				z := c.zero(c.p.info.Defs[n].Type())
 				out += fmt.Sprintf("let %s : %s := %s\n", leanIdent(n.Name), c.t.leanType(c.p.info.Defs[n].Type()), z)
 			}
@@ -1336,6 +1343,9 @@ func (c *fctx) assignStmt(x *ast.AssignStmt, rest []ast.Stmt) string {
 	}
 	if len(x.Lhs) == len(x.Rhs) {
 		if len(x.Lhs) == 1 {
+			if id, ok := x.Lhs[0].(*ast.Ident); ok && id.Name != "_" && c.lhsType(id) != nil && c.t.leanType(c.lhsType(id)) == "" {
+				return c.abstractAssign(x.Rhs[0], rest)
+			}
 			return c.assign(x.Lhs[0], c.exprAs(x.Rhs[0], c.lhsType(x.Lhs[0])), rest, nil)
 		}
 		// parallel assignment: evaluate all, then assign
@@ -1379,6 +1389,19 @@ func (c *fctx) assignStmt(x *ast.AssignStmt, rest []ast.Stmt) string {
 	}
 	fail("assignment %s", c.show(x))
 	return ""
+}
+
+// abstractAssign handles `x := e` / `x = e` for a local x of abstract type: the
+// variable carries no value; if e is an opaque call, the call itself is still
+// recorded in the trace.
+func (c *fctx) abstractAssign(e ast.Expr, rest []ast.Stmt) string {
+	call, ok := e.(*ast.CallExpr)
+	if tv, isT := c.p.info.Types[e]; ok && isT && tv.Type != nil && c.trace {
+		if ft, okF := c.p.info.Types[call.Fun]; !(okF && ft.IsType()) && !c.matches(c.spec.Ignore, call) && !c.matches(c.spec.Pure, call) {
+			return "let tr := tr ++ [" + c.traceEntry(call) + "]\n" + c.stmts(rest)
+		}
+	}
+	return c.stmts(rest)
 }
 
 func (c *fctx) lhsType(l ast.Expr) types.Type {
